@@ -1,52 +1,333 @@
 import Model.C05.PsbtTyped
 import Proofs.C05.PsbtMap
-/-! Typed layer of a PSBT input: what re-serialization keeps, what it normalises away, fixed point. -/
+/-!
+Typed layer of the PSBT maps.  Main result (`toRecs_fromRecs`): the serialize loop over the typed object
+that the parse loop builds equals "sort by (field rank, key) the records that survive an explicit drop
+predicate".  Then: which records are kept, fixed point.  Core Lean only.
+-/
 namespace Btc.Psbt
 open Btc Btc.Wire
 
 theorem validRecs_sublist {a b : List Rec} (h : a.Sublist b) (hv : ValidRecs b) : ValidRecs a :=
   ⟨fun r hr => hv.1 r (h.subset hr), List.Pairwise.sublist (h.map _) hv.2⟩
 
-theorem keptIn_sublist (recs : List Rec) : (keptIn recs).Sublist recs := List.filter_sublist
+theorem bytesLe_refl (a : Bytes) : bytesLe a a = true := by
+  have := bytesLe_total a a; simpa using this
 
+theorem nodup_of_keys {l : List Rec} (h : (l.map (·.1)).Nodup) : l.Nodup := by
+  induction l with
+  | nil => exact List.nodup_nil
+  | cons x xs ih =>
+    simp only [List.map_cons, List.nodup_cons] at h ⊢
+    exact ⟨fun hx => h.1 (List.mem_map.2 ⟨x, hx, rfl⟩), ih h.2⟩
+
+theorem sortKeys_perm (l : List Rec) : (sortKeys l).Perm l := List.mergeSort_perm l _
+
+theorem sortKeys_sorted (l : List Rec) : (sortKeys l).Pairwise (fun a b => bytesLe a.1 b.1 = true) :=
+  List.pairwise_mergeSort (fun a b c => bytesLe_trans a.1 b.1 c.1) (fun a b => bytesLe_total a.1 b.1) l
+
+/-- a list whose keys are all the same is left alone by `sorted` -/
+theorem sortKeys_of_same_key (l : List Rec) (k : Bytes) (h : ∀ r ∈ l, r.1 = k) : sortKeys l = l := by
+  apply List.mergeSort_of_pairwise
+  induction l with
+  | nil => exact List.Pairwise.nil
+  | cons x xs ih =>
+    refine List.Pairwise.cons ?_ (ih (fun r hr => h r (by simp [hr])))
+    intro y hy
+    rw [h x (by simp), h y (by simp [hy])]
+    exact bytesLe_refl k
+
+/-- GENERIC: emitting class by class in a fixed order, each class sorted by key, is sorting by
+    (position of the class in the order, key) -/
+theorem flatMap_sorted_groups (order : List Nat) (cls : Rec → Nat) (rank : Bytes → Nat) (l : List Rec)
+    (hidx : order.Pairwise (fun a b => order.idxOf a < order.idxOf b))
+    (hcls : ∀ r ∈ l, cls r ∈ order) (hrank : ∀ r ∈ l, rank r.1 = order.idxOf (cls r))
+    (hnd : (l.map (·.1)).Nodup) :
+    order.flatMap (fun ty => sortKeys (l.filter (fun r => cls r == ty))) = sortRecs rank l := by
+  have hmemG : ∀ ty x, x ∈ sortKeys (l.filter (fun r => cls r == ty)) ↔ x ∈ l ∧ cls x = ty := by
+    intro ty x
+    rw [(sortKeys_perm _).mem_iff]; simp [List.mem_filter]
+  have hmem : ∀ x, x ∈ order.flatMap (fun ty => sortKeys (l.filter (fun r => cls r == ty))) ↔ x ∈ l := by
+    intro x
+    simp only [List.mem_flatMap, hmemG]
+    constructor
+    · rintro ⟨_, _, hx, _⟩; exact hx
+    · intro hx; exact ⟨cls x, hcls x hx, hx, rfl⟩
+  have hln : l.Nodup := nodup_of_keys hnd
+  have hdist : order.Pairwise (fun a b => a ≠ b) :=
+    hidx.imp (fun {a b} h e => by subst e; exact Nat.lt_irrefl _ h)
+  -- the emitted list has no repetition
+  have hnodup : (order.flatMap (fun ty => sortKeys (l.filter (fun r => cls r == ty)))).Nodup := by
+    apply List.pairwise_flatMap.2
+    refine ⟨fun ty _ => ?_, ?_⟩
+    · exact (sortKeys_perm _).nodup_iff.2 (List.Pairwise.sublist List.filter_sublist hln)
+    · exact hdist.imp (fun {a b} hab x hx y hy e => by
+        subst e
+        exact hab (((hmemG a x).1 hx).2.symm.trans ((hmemG b x).1 hy).2))
+  -- and is sorted by (rank, key)
+  have hsorted : (order.flatMap (fun ty => sortKeys (l.filter (fun r => cls r == ty)))).Pairwise
+      (fun a b => recLe rank a b = true) := by
+    apply List.pairwise_flatMap.2
+    refine ⟨fun ty _ => ?_, ?_⟩
+    · have hs := sortKeys_sorted (l.filter (fun r => cls r == ty))
+      have hall : ∀ x ∈ sortKeys (l.filter (fun r => cls r == ty)), rank x.1 = order.idxOf ty := by
+        intro x hx
+        have ⟨hxl, hc⟩ := (hmemG ty x).1 hx
+        rw [hrank x hxl, hc]
+      have : (sortKeys (l.filter (fun r => cls r == ty))).Pairwise
+          (fun a b => rank a.1 = order.idxOf ty ∧ rank b.1 = order.idxOf ty) := by
+        apply List.pairwise_iff_forall_sublist.2
+        intro a b hab
+        have ha : a ∈ sortKeys (l.filter (fun r => cls r == ty)) := hab.subset (by simp)
+        have hb : b ∈ sortKeys (l.filter (fun r => cls r == ty)) := hab.subset (by simp)
+        exact ⟨hall a ha, hall b hb⟩
+      exact (hs.and this).imp (fun {a b} h => by
+        simp only [recLe, h.2.1, h.2.2, Nat.lt_irrefl, decide_false, beq_self_eq_true, Bool.true_and,
+          Bool.false_or]
+        exact h.1)
+    · exact hidx.imp (fun {a b} hab x hx y hy => by
+        have ⟨hxl, hcx⟩ := (hmemG a x).1 hx
+        have ⟨hyl, hcy⟩ := (hmemG b y).1 hy
+        simp only [recLe, hrank x hxl, hrank y hyl, hcx, hcy, hab, decide_true, Bool.true_or])
+  have hperm := (List.perm_ext_iff_of_nodup hnodup
+    ((sortRecs_perm rank l).nodup_iff.2 hln)).2
+      (fun x => by rw [hmem x, (sortRecs_perm rank l).mem_iff])
+  apply List.Perm.eq_of_pairwise (le := fun x y => recLe rank x y) _ hsorted (sortRecs_sorted rank l) hperm
+  intro x y hx hy h1 h2
+  exact eq_of_key_eq hnd ((hmem x).1 hx) ((sortRecs_perm rank l).mem_iff.1 hy)
+    (recLe_antisymm_key rank x y h1 h2)
+
+-- ------------------------------------------------------------------ well-formed tables
+/-- what the proofs need of the tables of a map kind; decidable, checked per instance by `decide` -/
+structure Spec.WF (s : Spec) : Prop where
+  idx : s.order.Pairwise (fun a b => s.order.idxOf a < s.order.idxOf b)
+  unk : 256 ∈ s.order
+  known_in : ∀ ty, s.known ty = true → ty ∈ s.order ∧ ty < 256
+  order_known : ∀ ty ∈ s.order, ty ≠ 256 → s.known ty = true
+  finals_kept : ∀ ty ∈ s.finals, s.droppedOnceFinal.contains ty = false
+
+variable (s : Spec)
+
+theorem flatMap_congr' {α β : Type} (l : List α) (f g : α → List β) (h : ∀ a ∈ l, f a = g a) :
+    l.flatMap f = l.flatMap g := by
+  induction l with
+  | nil => rfl
+  | cons x xs ih =>
+    simp only [List.flatMap_cons, h x (by simp), ih (fun a ha => h a (by simp [ha]))]
+
+theorem key_rebuild (k : Bytes) (h : k ≠ []) : UInt8.ofNat (tyOf k) :: keyData k = k := by
+  cases k with
+  | nil => exact absurd rfl h
+  | cons x xs => simp [tyOf, keyData]
+
+theorem cls_mem (wf : s.WF) (k : Bytes) : s.cls k ∈ s.order := by
+  unfold Spec.cls
+  split
+  · rename_i h; exact (wf.known_in _ h).1
+  · exact wf.unk
+
+theorem finalized_fromRecs (recs : List Rec) : (fromRecs s recs).finalized s = s.finalized recs := by
+  simp only [Typed.finalized, fromRecs, Spec.finalized, List.any_map, List.any_filter]
+  congr 1
+  funext r
+  simp only [Function.comp, Spec.finalRec]
+  cases s.whole.contains (tyOf r.1) <;> simp
+
+/-- one turn of the serialize loop, in terms of the records the map held -/
+theorem emit_fromRecs (wf : s.WF) (recs : List Rec) (hv : ValidRecs recs)
+    (hok : ∀ r ∈ recs, s.whole.contains (tyOf r.1) = true → keyData r.1 = []) (fin : Bool)
+    (ty : Nat) (hty : ty ∈ s.order) :
+    emit s (fromRecs s recs) fin ty =
+      sortKeys ((recs.filter (fun r => !s.dropped fin r)).filter (fun r => s.cls r.1 == ty)) := by
+  have hne : ∀ r ∈ recs, r.1 ≠ [] := fun r hr => (hv.1 r hr).1
+  unfold emit
+  by_cases h256 : ty = 256
+  · -- the unknown records
+    subst h256
+    simp only [if_true, fromRecs, List.filter_filter]
+    congr 1
+    apply List.filter_congr
+    intro r _
+    simp only [Spec.cls, Spec.dropped]
+    cases hk : s.known (tyOf r.1)
+    · have hw : s.whole.contains (tyOf r.1) = false := by
+        simp only [Spec.known, Bool.or_eq_false_iff] at hk; exact hk.1
+      simp only [hk, hw, Bool.false_eq_true, if_false, beq_self_eq_true, Bool.false_and, Bool.and_false,
+        Bool.or_self, Bool.not_false, Bool.and_self]
+    · have := (wf.known_in _ hk).2
+      simp only [if_true, Bool.not_true, Bool.false_eq]
+      simp only [Bool.and_eq_false_iff, beq_eq_false_iff_ne]
+      left; omega
+  · have hk : s.known ty = true := wf.order_known ty hty h256
+    have hlt : ty < 256 := (wf.known_in ty hk).2
+    simp only [h256, if_false]
+    -- records of class ty are the records of type ty
+    have hcls : ∀ r : Rec, (s.cls r.1 == ty) = (tyOf r.1 == ty) := by
+      intro r
+      simp only [Spec.cls]
+      cases hkr : s.known (tyOf r.1)
+      · simp only [Bool.false_eq_true, if_false]
+        have h1 : (256 == ty) = false := by simp; omega
+        have h2 : (tyOf r.1 == ty) = false := by
+          simp only [beq_eq_false_iff_ne]; intro e; rw [e, hk] at hkr; cases hkr
+        rw [h1, h2]
+      · simp
+    by_cases hdrop : (fin && s.droppedOnceFinal.contains ty) = true
+    · -- dropped once finalized: nothing of this type survives
+      simp only [hdrop, if_true]
+      have : (recs.filter (fun r => !s.dropped fin r)).filter (fun r => s.cls r.1 == ty) = [] := by
+        simp only [List.filter_filter, List.filter_eq_nil_iff, Bool.and_eq_true, Bool.not_eq_true', hcls,
+          beq_iff_eq, not_and]
+        intro r _ hr
+        simp only [Bool.and_eq_true] at hdrop
+        simp only [Spec.dropped, hr, hk, hdrop.1, hdrop.2, Bool.and_self, Bool.or_true, Bool.true_eq_false,
+          not_false_eq_true]
+      rw [this]; simp [sortKeys]
+    · simp only [hdrop, Bool.false_eq_true, if_false]
+      have hdrop' : (fin && s.known ty && s.droppedOnceFinal.contains ty) = false := by
+        simp only [hk, Bool.and_true]; simpa using hdrop
+      by_cases hw : s.whole.contains ty = true
+      · -- a whole-value field: its one record, when the value is truthy
+        simp only [hw, if_true, fromRecs, List.filter_map, List.map_map, List.filter_filter]
+        have hgoal : recs.filter (fun a => s.cls a.1 == ty && !s.dropped fin a)
+            = recs.filter (fun r => tyOf r.1 == ty && !s.falsy ty r.2) := by
+          apply List.filter_congr
+          intro r _
+          rw [hcls]
+          cases hr : (tyOf r.1 == ty)
+          · simp
+          · have e : tyOf r.1 = ty := by simpa using hr
+            simp only [Spec.dropped, e, hw, hdrop', Bool.true_and, Bool.or_false]
+        rw [hgoal]
+        have hmap : ((recs.filter (fun r => ((fun e : Nat × Bytes => e.1 == ty && !s.falsy ty e.2) ∘
+              fun r : Rec => (tyOf r.1, r.2)) r && s.whole.contains (tyOf r.1))).map
+              ((fun e : Nat × Bytes => (([UInt8.ofNat ty] : Bytes), e.2)) ∘ fun r : Rec => (tyOf r.1, r.2)))
+            = recs.filter (fun r => tyOf r.1 == ty && !s.falsy ty r.2) := by
+          have hf : ∀ r ∈ recs, (((fun e : Nat × Bytes => e.1 == ty && !s.falsy ty e.2) ∘
+              fun r : Rec => (tyOf r.1, r.2)) r && s.whole.contains (tyOf r.1))
+              = (tyOf r.1 == ty && !s.falsy ty r.2) := by
+            intro r _
+            simp only [Function.comp]
+            cases hr : (tyOf r.1 == ty)
+            · simp
+            · have e : tyOf r.1 = ty := by simpa using hr
+              simp only [e, hw, beq_self_eq_true, Bool.true_and, Bool.and_true]
+          rw [List.filter_congr hf]
+          conv => rhs; rw [← List.map_id (recs.filter (fun r => tyOf r.1 == ty && !s.falsy ty r.2))]
+          apply List.map_congr_left
+          intro r hr
+          have ⟨hrl, hp⟩ := List.mem_filter.1 hr
+          have e : tyOf r.1 = ty := by
+            simp only [Bool.and_eq_true, beq_iff_eq] at hp; exact hp.1
+          have hkd := hok r hrl (by rw [e]; exact hw)
+          have := key_rebuild r.1 (hne r hrl)
+          rw [e, hkd] at this
+          simp only [Function.comp, id]
+          rw [this]
+        rw [hmap]
+        symm
+        apply sortKeys_of_same_key _ [UInt8.ofNat ty]
+        intro r hr
+        have ⟨hrl, hp⟩ := List.mem_filter.1 hr
+        have e : tyOf r.1 = ty := by
+          simp only [Bool.and_eq_true, beq_iff_eq] at hp; exact hp.1
+        have hkd := hok r hrl (by rw [e]; exact hw)
+        have := key_rebuild r.1 (hne r hrl)
+        rw [e, hkd] at this
+        exact this.symm
+      · -- a key-data field: the dict, sorted
+        have hw' : s.whole.contains ty = false := by simpa using hw
+        have hkeyed : s.keyed.contains ty = true := by
+          simp only [Spec.known, hw', Bool.false_or] at hk; exact hk
+        simp only [hw', Bool.false_eq_true, if_false, fromRecs, List.filter_map, List.map_map,
+          List.filter_filter]
+        congr 1
+        have hf : ∀ r ∈ recs, (((fun e : Nat × Bytes × Bytes => e.1 == ty) ∘
+            fun r : Rec => (tyOf r.1, keyData r.1, r.2)) r &&
+              (!s.whole.contains (tyOf r.1) && s.keyed.contains (tyOf r.1)))
+            = (s.cls r.1 == ty && !s.dropped fin r) := by
+          intro r _
+          rw [hcls]
+          simp only [Function.comp]
+          cases hr : (tyOf r.1 == ty)
+          · simp
+          · have e : tyOf r.1 = ty := by simpa using hr
+            simp only [Spec.dropped, e, hw', hkeyed, hdrop', Bool.false_and, Bool.or_false, Bool.not_false,
+              Bool.and_self]
+        rw [List.filter_congr hf]
+        conv => rhs; rw [← List.map_id (recs.filter (fun r => s.cls r.1 == ty && !s.dropped fin r))]
+        apply List.map_congr_left
+        intro r hr
+        have ⟨hrl, hp⟩ := List.mem_filter.1 hr
+        have e : tyOf r.1 = ty := by
+          simp only [Bool.and_eq_true, hcls, beq_iff_eq] at hp; exact hp.1
+        have := key_rebuild r.1 (hne r hrl)
+        rw [e] at this
+        simp only [Function.comp, id]
+        rw [this]
+
+/-- MAIN: the serialize loop over the typed object the parse loop builds is
+    "sort by (field rank, key) the records that survive the drop predicate" -/
+theorem toRecs_fromRecs (wf : s.WF) (recs : List Rec) (hv : ValidRecs recs)
+    (hok : ∀ r ∈ recs, s.whole.contains (tyOf r.1) = true → keyData r.1 = []) :
+    toRecs s (fromRecs s recs) = sortRecs s.rank (s.kept recs) := by
+  unfold toRecs
+  rw [finalized_fromRecs]
+  have h1 : s.order.flatMap (emit s (fromRecs s recs) (s.finalized recs)) =
+      s.order.flatMap (fun ty => sortKeys ((s.kept recs).filter (fun r => s.cls r.1 == ty))) := by
+    apply flatMap_congr'
+    intro ty hty
+    rw [emit_fromRecs s wf recs hv hok _ ty hty]; rfl
+  rw [h1]
+  have hvk : ValidRecs (s.kept recs) := validRecs_sublist List.filter_sublist hv
+  exact flatMap_sorted_groups s.order (fun r => s.cls r.1) s.rank (s.kept recs) wf.idx
+    (fun r _ => cls_mem s wf r.1) (fun r _ => rfl) hvk.2
+
+theorem recordOk_keyData (ver : Nat) (r : Rec) (h : s.recordOk ver r = true)
+    (hw : s.whole.contains (tyOf r.1) = true) : keyData r.1 = [] := by
+  unfold Spec.recordOk at h
+  simp only [hw, if_true] at h
+  repeat' split at h
+  all_goals first | cases h | (simp only [Bool.and_eq_true, List.isEmpty_iff] at h; exact h.1)
+
+-- ------------------------------------------------------------------ consequences
 theorem mem_sorted_kept (recs : List Rec) (r : Rec) :
-    r ∈ sortRecs inRank (keptIn recs) ↔ r ∈ recs ∧ droppedIn (finalized recs) r = false := by
-  rw [(sortRecs_perm inRank (keptIn recs)).mem_iff]
-  simp [keptIn, List.mem_filter]
+    r ∈ sortRecs s.rank (s.kept recs) ↔ r ∈ recs ∧ s.dropped (s.finalized recs) r = false := by
+  rw [(sortRecs_perm s.rank (s.kept recs)).mem_iff]
+  simp [Spec.kept, List.mem_filter]
 
-/-- a truthy final field is never one of the fields a finalized input drops (generated tables) -/
-theorem finalRec_kept (fin : Bool) (r : Rec) (h : finalRec r = true) : droppedIn fin r = false := by
-  simp only [finalRec, Bool.and_eq_true, Bool.or_eq_true, beq_iff_eq, Bool.not_eq_true'] at h
-  obtain ⟨⟨hw, hty⟩, hf⟩ := h
-  simp only [droppedIn, hw, hf, Bool.and_false, Bool.false_or, Bool.and_eq_false_iff]
-  right
-  rcases hty with e | e <;> rw [e] <;> decide
+theorem finalRec_kept (wf : s.WF) (fin : Bool) (r : Rec) (h : s.finalRec r = true) : s.dropped fin r = false := by
+  simp only [Spec.finalRec, Bool.and_eq_true, Bool.not_eq_true'] at h
+  obtain ⟨⟨hf, hw⟩, hfal⟩ := h
+  have := wf.finals_kept _ (by simpa using hf)
+  simp only [Spec.dropped, hw, hfal, this, Bool.and_false, Bool.or_self]
 
-theorem finalized_sorted_kept (recs : List Rec) :
-    finalized (sortRecs inRank (keptIn recs)) = finalized recs := by
+theorem finalized_sorted_kept (wf : s.WF) (recs : List Rec) :
+    s.finalized (sortRecs s.rank (s.kept recs)) = s.finalized recs := by
   apply Bool.eq_iff_iff.2
-  simp only [finalized, List.any_eq_true]
+  simp only [Spec.finalized, List.any_eq_true]
   constructor
   · rintro ⟨r, hr, hf⟩
-    exact ⟨r, ((mem_sorted_kept recs r).1 hr).1, hf⟩
+    exact ⟨r, ((mem_sorted_kept s recs r).1 hr).1, hf⟩
   · rintro ⟨r, hr, hf⟩
-    exact ⟨r, (mem_sorted_kept recs r).2 ⟨hr, finalRec_kept _ r hf⟩, hf⟩
+    exact ⟨r, (mem_sorted_kept s recs r).2 ⟨hr, finalRec_kept s wf _ r hf⟩, hf⟩
 
-theorem keptIn_sorted_kept (recs : List Rec) :
-    keptIn (sortRecs inRank (keptIn recs)) = sortRecs inRank (keptIn recs) := by
-  unfold keptIn
-  rw [show finalized (sortRecs inRank (List.filter (fun r => !droppedIn (finalized recs) r) recs))
-      = finalized recs from finalized_sorted_kept recs]
+theorem kept_sorted_kept (wf : s.WF) (recs : List Rec) :
+    s.kept (sortRecs s.rank (s.kept recs)) = sortRecs s.rank (s.kept recs) := by
+  show (sortRecs s.rank (s.kept recs)).filter
+    (fun r => !s.dropped (s.finalized (sortRecs s.rank (s.kept recs))) r) = _
+  rw [finalized_sorted_kept s wf recs]
   apply List.filter_eq_self.2
   intro r hr
-  have := ((mem_sorted_kept recs r).1 hr).2
+  have := ((mem_sorted_kept s recs r).1 hr).2
   simp [this]
 
-/-- what `reserIn` answers with, spelled out -/
-theorem reserIn_ok (ver : Nat) (b out : Bytes) (h : reserIn ver b = .ok out) :
-    ∃ recs, parseMap b = .ok (recs, []) ∧ recs.all (recordOkIn ver) = true ∧
-      out = serMap (sortRecs inRank (keptIn recs)) := by
-  unfold reserIn at h
+/-- what `reser` answers with, spelled out -/
+theorem reser_ok (wf : s.WF) (ver : Nat) (b out : Bytes) (h : reser s ver b = .ok out) :
+    ∃ recs, parseMap b = .ok (recs, []) ∧ recs.all (s.recordOk ver) = true ∧ ValidRecs recs ∧
+      toRecs s (fromRecs s recs) = sortRecs s.rank (s.kept recs) ∧
+      out = serMap (sortRecs s.rank (s.kept recs)) := by
+  unfold reser at h
   split at h
   · cases h
   · rename_i recs rest hp
@@ -58,76 +339,71 @@ theorem reserIn_ok (ver : Nat) (b out : Bytes) (h : reserIn ver b = .ok out) :
         cases h
         have : rest = [] := by simpa using hr
         subst this
-        exact ⟨recs, hp, hall, rfl⟩
+        have ⟨hv, _⟩ := serMap_parseMap _ _ _ hp
+        have hok : ∀ r ∈ recs, s.whole.contains (tyOf r.1) = true → keyData r.1 = [] :=
+          fun r hr hw => recordOk_keyData s ver r (List.all_eq_true.1 hall r hr) hw
+        have e := toRecs_fromRecs s wf recs hv hok
+        exact ⟨recs, hp, hall, hv, e, by rw [e]⟩
       · cases h
 
 theorem parseMap_sorted_kept (recs : List Rec) (hv : ValidRecs recs) :
-    parseMap (serMap (sortRecs inRank (keptIn recs))) = .ok (sortRecs inRank (keptIn recs), []) := by
-  have hv' : ValidRecs (sortRecs inRank (keptIn recs)) :=
-    validRecs_perm (sortRecs_perm inRank _).symm (validRecs_sublist (keptIn_sublist recs) hv)
+    parseMap (serMap (sortRecs s.rank (s.kept recs))) = .ok (sortRecs s.rank (s.kept recs), []) := by
+  have hv' : ValidRecs (sortRecs s.rank (s.kept recs)) :=
+    validRecs_perm (sortRecs_perm s.rank _).symm (validRecs_sublist List.filter_sublist hv)
   have := parseMap_serMap _ [] hv'
   simpa using this
 
 /-- re-serialization is a fixed point after one round -/
-theorem reserIn_fixed (ver : Nat) (b out : Bytes) (h : reserIn ver b = .ok out) :
-    reserIn ver out = .ok out := by
-  obtain ⟨recs, hp, hall, rfl⟩ := reserIn_ok ver b out h
-  have ⟨hv, _⟩ := serMap_parseMap _ _ _ hp
-  unfold reserIn
-  rw [parseMap_sorted_kept recs hv]
-  have hall' : (sortRecs inRank (keptIn recs)).all (recordOkIn ver) = true := by
+theorem reser_fixed (wf : s.WF) (ver : Nat) (b out : Bytes) (h : reser s ver b = .ok out) :
+    reser s ver out = .ok out := by
+  obtain ⟨recs, hp, hall, hv, _, rfl⟩ := reser_ok s wf ver b out h
+  have hv' : ValidRecs (sortRecs s.rank (s.kept recs)) :=
+    validRecs_perm (sortRecs_perm s.rank _).symm (validRecs_sublist List.filter_sublist hv)
+  have hall' : (sortRecs s.rank (s.kept recs)).all (s.recordOk ver) = true := by
     rw [List.all_eq_true] at hall ⊢
     intro r hr
-    exact hall r ((mem_sorted_kept recs r).1 hr).1
+    exact hall r ((mem_sorted_kept s recs r).1 hr).1
+  have hok : ∀ r ∈ sortRecs s.rank (s.kept recs), s.whole.contains (tyOf r.1) = true → keyData r.1 = [] :=
+    fun r hr hw => recordOk_keyData s ver r (List.all_eq_true.1 hall' r hr) hw
+  unfold reser
+  rw [parseMap_sorted_kept s recs hv]
   simp only [List.isEmpty_nil, Bool.not_true, Bool.false_eq_true, if_false, hall', if_true,
-    keptIn_sorted_kept, sortRecs_idem]
+    toRecs_fromRecs s wf _ hv' hok, kept_sorted_kept s wf, sortRecs_idem]
 
--- ------------------------------------------------------------------ output maps
-theorem mem_sorted_keptOut (recs : List Rec) (r : Rec) :
-    r ∈ sortRecs outRank (keptOut recs) ↔ r ∈ recs ∧ droppedOut r = false := by
-  rw [(sortRecs_perm outRank (keptOut recs)).mem_iff]
-  simp [keptOut, List.mem_filter]
+-- ------------------------------------------------------------------ the three map kinds
+instance (s : Spec) : Decidable (Spec.WF s) :=
+  decidable_of_iff
+    (s.order.Pairwise (fun a b => s.order.idxOf a < s.order.idxOf b) ∧ 256 ∈ s.order ∧
+      (∀ ty ∈ s.whole ++ s.keyed, ty ∈ s.order ∧ ty < 256) ∧
+      (∀ ty ∈ s.order, ty ≠ 256 → s.known ty = true) ∧
+      (∀ ty ∈ s.finals, s.droppedOnceFinal.contains ty = false))
+    ⟨fun ⟨a, b, c, d, e⟩ => ⟨a, b, fun ty h => c ty (by
+        simp only [Spec.known, Bool.or_eq_true, List.contains_iff_mem] at h
+        simpa using h), d, e⟩,
+     fun w => ⟨w.idx, w.unk, fun ty h => w.known_in ty (by
+        simp only [Spec.known, Bool.or_eq_true, List.contains_iff_mem]
+        simpa using h), w.order_known, w.finals_kept⟩⟩
 
-theorem reserOut_ok (ver : Nat) (b out : Bytes) (h : reserOut ver b = .ok out) :
-    ∃ recs, parseMap b = .ok (recs, []) ∧ recs.all (recordOkOut ver) = true ∧
-      out = serMap (sortRecs outRank (keptOut recs)) := by
-  unfold reserOut at h
+theorem wf_specIn : specIn.WF := by decide
+theorem wf_specOut : specOut.WF := by decide
+theorem wf_specGlobal : specGlobal.WF := by decide
+
+theorem reserGlobal_ok (b out : Bytes) (h : reserGlobal b = .ok out) :
+    ∃ ver, (ver = 0 ∨ ver = 2) ∧ reser specGlobal ver b = .ok out := by
+  unfold reserGlobal at h
   split at h
   · cases h
-  · rename_i recs rest hp
+  · rename_i recs _ _
+    simp only at h
     split at h
     · cases h
-    · rename_i hr
+    · rename_i hv
       split at h
-      · rename_i hall
-        cases h
-        have : rest = [] := by simpa using hr
-        subst this
-        exact ⟨recs, hp, hall, rfl⟩
       · cases h
-
-theorem parseMap_sorted_keptOut (recs : List Rec) (hv : ValidRecs recs) :
-    parseMap (serMap (sortRecs outRank (keptOut recs))) = .ok (sortRecs outRank (keptOut recs), []) := by
-  have hv' : ValidRecs (sortRecs outRank (keptOut recs)) :=
-    validRecs_perm (sortRecs_perm outRank _).symm (validRecs_sublist List.filter_sublist hv)
-  have := parseMap_serMap _ [] hv'
-  simpa using this
-
-theorem reserOut_fixed (ver : Nat) (b out : Bytes) (h : reserOut ver b = .ok out) :
-    reserOut ver out = .ok out := by
-  obtain ⟨recs, hp, hall, rfl⟩ := reserOut_ok ver b out h
-  have ⟨hv, _⟩ := serMap_parseMap _ _ _ hp
-  unfold reserOut
-  rw [parseMap_sorted_keptOut recs hv]
-  have hall' : (sortRecs outRank (keptOut recs)).all (recordOkOut ver) = true := by
-    rw [List.all_eq_true] at hall ⊢
-    intro r hr
-    exact hall r ((mem_sorted_keptOut recs r).1 hr).1
-  have hk : keptOut (sortRecs outRank (keptOut recs)) = sortRecs outRank (keptOut recs) := by
-    apply List.filter_eq_self.2
-    intro r hr
-    have := ((mem_sorted_keptOut recs r).1 hr).2
-    simp [this]
-  simp only [List.isEmpty_nil, Bool.not_true, Bool.false_eq_true, if_false, hall', if_true, hk, sortRecs_idem]
+      · refine ⟨globalVersion recs, ?_, h⟩
+        simp only [Bool.and_eq_true, bne_iff_ne, ne_eq, not_and, Decidable.not_not] at hv
+        by_cases h0 : globalVersion recs = 0
+        · left; exact h0
+        · right; exact hv h0
 
 end Btc.Psbt
